@@ -17,6 +17,7 @@ class St:
 
 
 class DictWorld(HistoryWorld):
+    run_timeout = 20   # slowest legitimate run is well under 0.2 s
     name = 'DICT'
     chunk = 40
     real_code = ['pytoniq_core.boc.hashmap.HashMap (set, set_int_key, serialize, parse, from_cell)', 'pytoniq_core.boc.hashmap.utils (tree building, label writing)',
